@@ -449,8 +449,93 @@ fn code_offset(kinds: &[u8], n: usize) -> u64 {
     kinds.iter().take(n).map(|k| if *k == 1 { 3u64 } else { 1 }).sum()
 }
 
+/// Instructions that work only when their mnemonic has hooks (`syscall`, `int n`, `int1`,
+/// `int3`): every subset of (mnemonic, phase) registrations of logging hooks x each of the four
+/// instructions. With a hook of its own the instruction is an executed instruction with hooks:
+/// the step succeeds and its hooks bracket it; hooks of the other three never run.
+fn dependent_sweep(e: &mut EnumCtx) {
+    let instrs: [(&str, &[u8], SupportedMnemonic); 4] = [
+        ("syscall", &[0x0F, 0x05], SupportedMnemonic::Syscall),
+        ("int 0x80", &[0xCD, 0x80], SupportedMnemonic::Int),
+        ("int1", &[0xF1], SupportedMnemonic::Int1),
+        ("int3", &[0xCC], SupportedMnemonic::Int3),
+    ];
+    init_pool();
+    let pool: Vec<&'static RustCallbackFunction> = POOL.with(|p| p.borrow().clone());
+    for (ii, (text, bytes, _)) in instrs.iter().enumerate() {
+        for subset in 0..256u32 {
+            if !e.next() {
+                continue;
+            }
+            e.describe("hooks", &format!("dependent {text} registrations={subset:#010b}"));
+            let mut code = bytes.to_vec();
+            code.extend_from_slice(&[0x48, 0x89, 0xC0]);
+            let mut ax = Axecutor::new(&code, 0x1000, 0x1000).unwrap();
+            ax.reg_write_64(SR::RAX, 0x3333).unwrap();
+            ax.reg_write_64(SR::RCX, 100).unwrap();
+            for (mi, (_, _, mn)) in instrs.iter().enumerate() {
+                if subset >> (2 * mi) & 1 != 0 {
+                    ax.hook_before_mnemonic_native(*mn, pool[pool_index(mi, true, Outcome::Unhandled)]).unwrap();
+                }
+                if subset >> (2 * mi + 1) & 1 != 0 {
+                    ax.hook_after_mnemonic_native(*mn, pool[pool_index(mi, false, Outcome::Unhandled)]).unwrap();
+                }
+            }
+            LOG.with(|l| l.borrow_mut().clear());
+            STEP.with(|s| *s.borrow_mut() = 0);
+            let out = crate::emu::step(&mut ax);
+            let log: Vec<Entry> = LOG.with(|l| l.borrow().clone());
+            let own_b = subset >> (2 * ii) & 1 != 0;
+            let own_a = subset >> (2 * ii + 1) & 1 != 0;
+            let w = || json!({"dependent_instruction": text, "registrations": format!("{subset:#010b}")});
+            let ctx = format!("`{text}` with hook registrations {subset:#010b} (bit 2m: before, 2m+1: after; m = syscall, int, int1, int3)");
+            e.count("transitions", 1);
+            e.count("dependent_cases", 1);
+            let mut f = crate::common::Fp::new();
+            f.u64(ii as u64);
+            f.u64(subset as u64);
+            f.u64(0x646570);
+            e.state(f.0);
+            f.str(out.class());
+            f.u64(log.len() as u64);
+            e.outcome(f.0);
+            if let StepOut::Panic(p) = &out {
+                e.finding(&format!("hooks|panic@{}", p.tag()), || format!("{ctx}: step panicked"), w);
+                continue;
+            }
+            if log.iter().any(|x| x.id != ii) {
+                e.finding("hooks|foreign-mnemonic-hook-ran", || format!("{ctx}: a hook of another mnemonic ran: {:?}", log.iter().map(|x| x.id).collect::<Vec<_>>()), w);
+            }
+            if own_b || own_a {
+                if let StepOut::Err(er) = &out {
+                    e.finding("hooks|step-failed-without-failing-hook", || format!("{ctx}: the instruction has hooks of its own, none failed, yet the step failed: {}", crate::emu::first_line(er)), w);
+                    continue;
+                }
+                let nb = log.iter().filter(|x| x.id == ii && x.before).count();
+                let na = log.iter().filter(|x| x.id == ii && !x.before).count();
+                if nb != own_b as usize {
+                    e.finding("hooks|must-run-violated|before", || format!("{ctx}: its before-hook ran {nb} time(s)"), w);
+                }
+                if na != own_a as usize {
+                    e.finding("hooks|must-run-violated|after", || format!("{ctx}: its after-hook ran {na} time(s)"), w);
+                }
+                if let (Some(lb), Some(fa)) = (log.iter().rposition(|x| x.before), log.iter().position(|x| !x.before)) {
+                    if lb > fa {
+                        e.finding("hooks|before-after-interleaved", || format!("{ctx}: a before-hook ran after an after-hook"), w);
+                    }
+                }
+                let next = 0x1000 + bytes.len() as u64;
+                if log.iter().any(|x| x.rip != next) {
+                    e.finding("hooks|rip-not-advanced|before", || format!("{ctx}: a hook saw RIP {:#x}", log.iter().map(|x| x.rip).find(|r| *r != next).unwrap_or(0)), w);
+                }
+            }
+        }
+    }
+}
+
 fn gen(maxk: usize) -> impl Fn(&mut EnumCtx) + Sync {
     move |e: &mut EnumCtx| {
+        dependent_sweep(e);
         for nb in 0..=maxk {
             for na in 0..=maxk {
                 let tb = NOUT.pow(nb as u32);
@@ -521,7 +606,7 @@ pub fn run(tier: Tier) -> i32 {
         return crate::common::finish_replay("C12", &art, &|ws| confirm_enum(&o, &g, ws));
     }
     let out = run_enum(&o, &g);
-    enum_evidence(&mut run, &out, "one case = (outcomes of up to k before-hooks and k after-hooks on `inc rcx` from {Unhandled, Handled, Stop, Error, Mutate(RBX), Register-a-hook-from-inside, Redirect(RIP to a second trailing instruction)}, a logging hook pair on `nop`, one of 5 programs (the fifth ends by a top-level `ret` with a logging hook pair of its own), one of 5 follow-up API calls); the event log of instrumented native hooks is checked against the order-agnostic grammar of DESIGN C12; states = distinct (hook event log, program, follow-up); distinct_nontrivial = distinct hook event logs");
+    enum_evidence(&mut run, &out, "one case = (outcomes of up to k before-hooks and k after-hooks on `inc rcx` from {Unhandled, Handled, Stop, Error, Mutate(RBX), Register-a-hook-from-inside, Redirect(RIP to a second trailing instruction)}, a logging hook pair on `nop`, one of 5 programs (the fifth ends by a top-level `ret` with a logging hook pair of its own), one of 5 follow-up API calls); plus the four instructions that need a hook to work (`syscall`, `int n`, `int1`, `int3`) x all 256 subsets of logging before/after hooks on their four mnemonics; the event log of instrumented native hooks is checked against the order-agnostic grammar of DESIGN C12; states = distinct (hook event log, program, follow-up); distinct_nontrivial = distinct hook event logs");
     run.cov("max_hooks_per_phase", json!(maxk));
     run.guard("cases", out.cases >= 30_000 || out.capped, format!("{} configurations", out.cases));
     run.guard("logs-distinct", out.distinct > 50, format!("{} distinct hook logs", out.distinct));
